@@ -102,10 +102,22 @@ def main():
             out.append({"create_error": type(exc).__name__ + ": " + str(exc)[:80]})
             f.close()
             continue
-        obs = [observe(da, dt, pool, False)]
+        # two Python objects of the one array: operations alternate between them, every observation is made through
+        # both (shape, length, cells) and must be the same
+        hs = [da, b.data_arrays["a"]]
+        len(hs[1]), hs[1].shape
+
+        def observe2(refused):
+            o = observe(hs[0], dt, pool, refused)
+            o2 = observe(hs[1], dt, pool, refused)
+            if o2 != o and o[3] < 90:
+                o[3] = 96
+            return o
+        obs = [observe2(False)]
         comp_stored = None
-        for op in case["ops"]:
+        for nop, op in enumerate(case["ops"]):
             refused = False
+            da = hs[(nop + k) % 2]
             try:
                 if op[0] == "write_all":
                     v = to_np(dt, op[1], [int(x) for x in da.shape], pool)
@@ -127,10 +139,11 @@ def main():
                     f.close()
                     gc.collect()
                     f = nixio.File.open(path, nixio.FileMode.ReadOnly if op[1] else nixio.FileMode.ReadWrite)
-                    da = f.blocks["b"].data_arrays["a"]
+                    hs = [f.blocks["b"].data_arrays["a"], f.blocks["b"].data_arrays["a"]]
+                    len(hs[1]), hs[1].shape
             except Exception as exc:
                 refused = True
-            obs.append(observe(da, dt, pool, refused))
+            obs.append(observe2(refused))
         f.close()
         import h5py
         with h5py.File(path, "r") as h:
